@@ -329,7 +329,8 @@ Proof.
     + unfold pend_check_required. destruct (existsb _ _); cbn; auto.
     + intros _ _. generalize (gsts s). induction (gcons c) as [|g gr IH]; intros [|x xr]; cbn; auto.
       apply bind_nofault; [|intros; apply IH].
-      destruct g, x; cbn; auto; try (destruct remaining; cbn; auto); destruct used; cbn; auto.
+      destruct g, x; cbn; auto; try (destruct remaining; cbn; auto); try (destruct used; cbn; auto);
+        match goal with |- nofault (if ?b then _ else _) => destruct b; cbn; auto end.
 Qed.
 
 (** Evaluation of ANY argument vector, with any argument file lines and any
